@@ -429,6 +429,30 @@ def walOpen (H : Bytes → Bytes) (file : Bytes) (offset size ckSeq : Nat) (read
     let absolute ← addP offset (pos % size)
     if absolute ≥ 2^63 then .err "io" else .ok res
 
+/-- `append_entry` up to the sequence number: the capacity tests (`Err(CheckpointFailed)` / `Err(Lock)`) -/
+def walAppendGuards (readOnly : Bool) (size pending writeHead payloadLen : Nat) : Out Unit :=
+  if readOnly then .err "read_only" else
+  if payloadLen > 4294967295 then .err "too_large" else
+  (addP EHS payloadLen).bind fun entrySize =>
+  if entrySize > size then .err "too_small" else
+  (addP pending entrySize).bind fun p =>
+  if p > size then .err "full" else
+  (addP writeHead entrySize).bind fun w =>
+  if w > size ∧ pending > 0 then .err "full" else .ok ()
+
+/-- `EmbeddedWal::append_entry`: ok = the sequence number of the new record.  `checked` = the source
+    computes it with `checked_add` (repaired) instead of `self.sequence + 1`. -/
+def walAppendWith (checked readOnly : Bool) (size pending writeHead sequence payloadLen : Nat) : Out Nat :=
+  (walAppendGuards readOnly size pending writeHead payloadLen).bind fun _ =>
+  if checked then
+    match checkedAdd sequence 1 with
+    | some n => .ok n
+    | none => .err "sequence"
+  else addP sequence 1
+
+def walAppend (readOnly : Bool) (size pending writeHead sequence payloadLen : Nat) : Out Nat :=
+  walAppendWith Gen.C22.WAL_APPEND_SEQ_CHECKED readOnly size pending writeHead sequence payloadLen
+
 /-! ### D8 time index: `read_track` (src/io/time_index.rs) with the pre-allocation -/
 
 /-- `allocOk n` = the allocator grants `n` bytes; a refused request aborts the process -/
